@@ -65,6 +65,23 @@ def effect : AnyClaim → AnyClaim
 def valid (k : AddrKind) : AnyClaim → Bool
   | stf c => c.valid k | bc c => c.valid k | bcr c => c.valid k | ste c => c.valid k | bt c => c.valid k | osu c => c.valid k
 
+/-- the claim's own `ChainName` (NOT the chain the enclosing `MsgClaim` is routed to: nothing compares the two) -/
+def chainName : AnyClaim → Str
+  | stf c => c.ChainName | bc c => c.ChainName | bcr c => c.ChainName | ste c => c.ChainName | bt c => c.ChainName
+  | osu c => c.ChainName
+
+/-- the claim's `ValidateBasic` as the ante handler runs it: the claim's own `ChainName` is a registered chain and the
+fields have the character classes of THAT chain's address class (regenerated `validGen`) -/
+def wellFormed (c : AnyClaim) : Bool :=
+  match chainKind c.chainName with
+  | some k => c.valid k
+  | none => false
+
+/-- what the handlers read of the claim, as values: the REGENERATED `handlerView` of the claim's type -/
+def handlerView : AnyClaim → List HEntry
+  | stf c => c.handlerView | bc c => c.handlerView | bcr c => c.handlerView | ste c => c.handlerView | bt c => c.handlerView
+  | osu c => c.handlerView
+
 end AnyClaim
 
 /-- `types.Attestation` under its store key `nonce ‖ hash` -/
